@@ -171,7 +171,7 @@ func (d *driver) blocks(w *world, stNode int, run string, dts []time.Duration, h
 			b.Height = heights[i] - 1
 		}
 		br := b.NextBlock(dt)
-		parent = d.log.Add(parent, run, "Block", map[string]interface{}{"state": d.state, "n": i + 1, "dt": int64(dt / time.Second), "h": b.Height},
+		parent = d.log.Add(parent, run, "Block", map[string]interface{}{"state": d.state, "n": i + 1, "dt": int64(dt / time.Second), "h": b.Height, "hist": "", "oracle": false, "zero": false, "rebuild": false, "silent": false},
 			map[string]interface{}{"returned": !br.Panic, "panicS": short(br.Err), "panicK": panicKind(short(br.Err))},
 			map[string]interface{}{"digest": b.Digest()})
 		d.stats["blocks"]++
@@ -238,7 +238,7 @@ func Main(args []string) int {
 				nil, map[string]interface{}{"digest": w.Digest(), "h": w.Height})
 			d.stats["states"]++
 			for i, hr := range w.hist {
-				d.log.Add(stNode, run, "Block", map[string]interface{}{"state": d.state, "n": -(i + 1), "dt": 0, "h": 0, "hist": hr.What},
+				d.log.Add(stNode, run, "Block", map[string]interface{}{"state": d.state, "n": -(i + 1), "dt": 0, "h": 0, "hist": hr.What, "oracle": hr.Oracle, "zero": hr.Zero, "rebuild": hr.Rebuild, "silent": hr.Silent},
 					map[string]interface{}{"returned": hr.Returned, "panicS": hr.PanicS, "panicK": panicKind(hr.PanicS)},
 					map[string]interface{}{"digest": ""})
 				d.stats["histSteps"]++
@@ -248,6 +248,7 @@ func Main(args []string) int {
 			}
 			d.items(w, stNode, run)
 			d.facets(w, stNode, run)
+			d.stages(w, stNode, run)
 			d.blocks(w, stNode, run, []time.Duration{6 * time.Second, 6 * time.Second, time.Duration(p.Gap) * time.Second}, nil)
 			d.blocks(w, stNode, run, []time.Duration{6 * time.Second, 6 * time.Second}, []int64{14400 * (1 + w.Height/14400), 0})
 		}
